@@ -118,3 +118,15 @@ Proof.
   intros v nd. unfold gen_reshape, reshape.
   destruct (strides v) as [|s0 [|? ?]]; try reflexivity. all: rewrite gen_reshape_strides_eq; reflexivity.
 Qed.
+
+(* operator[](i) on rank > 1 *)
+Definition gen_index0 (v : view) (i : iv) : view :=
+  match dims v, strides v with
+  | d :: ds, s :: ss => mkView (base v + ix_offset (res d i) s) ds ss
+  | _, _ => v
+  end.
+Lemma gen_index0_eq : forall v i, gen_index0 v i = index0 v i.
+Proof.
+  intros v i. unfold gen_index0, index0, ix_offset.
+  destruct (dims v) as [|d ds]; try reflexivity. all: destruct (strides v) as [|s ss]; reflexivity.
+Qed.
